@@ -35,6 +35,10 @@ Reading of the statements (model: `Model/RandomViews.lean`, which transcribes th
   otherwise; positions `≥ n` are untouched.  `filter_read`: a mask view read gives `A p` where the
   mask is true and `0` elsewhere.
 * `read_ii` / `write_ii`: the per-axis overload composed with reading / writing.
+* `eval2_lanes`, `eval2_ii`, `teval_rank3`: what a 2-D / n-D range view asks its source for — element
+  `(i,k)` by row and column, or a multi-index — is the element of the view at that position (flat
+  `i*ncols+k`, row-major flat index of the multi-index), lanes = consecutive columns.  (This is the
+  code after the `fix:` commit; before it these members used `i+k` and the sum of the multi-index.)
 
 Not in the model: index narrowing to `int` and overflow of the index arithmetic (indices are natural
 numbers), `noalias()` temporaries, right-hand sides that need evaluation into a temporary first,
@@ -185,6 +189,39 @@ theorem read_ii (ofInt : Int → α) (env : Nat → Nat → α) (mask : Nat → 
     have : (a + 1) * N ≤ M * N := Nat.mul_le_mul_right _ (by omega)
     rw [Nat.add_mul] at this; omega
   rw [random_read_view ofInt env _ mask dst w (M * N) ex hn hex _ hp, flat_index_ii ncols M N it0 it1 junk a b ha hb]
+
+/-! ## the view as a 2-D / n-D operand -/
+
+omit [Zero α] [Add α] [Sub α] [Mul α] in
+/-- lane `l` of `eval(i,k)` is `eval_s(i,k+l)`: element `(i, k+l)` of the view -/
+theorem eval2_lanes (data : Nat → α) (it : Nat → Nat) (V ncols i k l : Nat) (hl : l < V) :
+    (evalV2 data it V ncols i k)[l]? = some (evalS2 data it ncols i (k + l)) := by
+  unfold evalV2 evalS2
+  rw [vectorSetter_eq]
+  simp [laneInds, forRange_zero_one, hl, Nat.add_assoc]
+
+omit [Zero α] [Add α] [Sub α] [Mul α] in
+/-- **element `(a,b)` of `A(it0,it1)` asked for by row and column is `A[it0[a]*NCols + it1[b]]`** -/
+theorem eval2_ii (data : Nat → α) (junk it0 it1 : Nat → Nat) (ncols M N a b : Nat) (ha : a < M) (hb : b < N) :
+    evalS2 data (storesTo junk (flatII ncols M N it0 it1)) N a b = data (it0 a * ncols + it1 b) := by
+  unfold evalS2
+  rw [flat_index_ii ncols M N it0 it1 junk a b ha hb]
+
+/-- `get_flat_index` of a rank-3 multi-index is the row-major position -/
+theorem flatIndex_rank3 (d0 d1 d2 x y z : Nat) : flatIndex [d0, d1, d2] [x, y, z] = (x * d1 + y) * d2 + z := by
+  simp [flatIndex, Nat.add_mul, Nat.mul_assoc, Nat.add_assoc]
+
+omit [Zero α] [Add α] [Sub α] [Mul α] in
+/-- `teval_s(as)` of a rank-3 view is the element at row-major position `(x,y,z)` of the index tensor,
+    and lane `l` of `teval(as)` is the element at `(x,y,z+l)` -/
+theorem teval_rank3 (data : Nat → α) (it : Nat → Nat) (V d0 d1 d2 x y z l : Nat) (hl : l < V) :
+    tevalS data it [d0, d1, d2] [x, y, z] = data (it ((x * d1 + y) * d2 + z)) ∧
+    (tevalV data it V [d0, d1, d2] [x, y, z])[l]? = some (tevalS data it [d0, d1, d2] [x, y, z + l]) := by
+  unfold tevalS tevalV
+  rw [vectorSetter_eq, flatIndex_rank3, flatIndex_rank3]
+  simp [laneInds, forRange_zero_one, hl, Nat.add_assoc]
+
+example : evalV2 (fun p => (p : Int)) (fun q => [7, 3, 9, 1, 0, 5].getD q 0) 2 3 1 1 = [0, 5] := by decide
 
 /-! ## writes through an index-tensor view -/
 
